@@ -577,6 +577,15 @@ def module_locality_implies_package_locality(F, res, rule="V11"):
                         for c in [callee(t) or callee_def(t) or ""] if c.rsplit("::", 1)[-1] in ("strip_prefix", "file_name", "skip", "nth", "last", "root_path")})
     res.ob(rule, "module-is-local/whole-path", "Module::is_local tests the file's whole path for a build/packages directory (no prefix is stripped first)",
            not shortened, where=f.loc(), how="calls that shorten or re-base the path: %s" % shortened)
+    # the directory is looked for component by component (Path::ancestors / components / ends_with / starts_with): a test on the path
+    # as text (`contains`, `find`, `matches`) also fires on src/build/packages.gleam and on my-build/packages-old/
+    textual = sorted({FL.short(c) for cp in F.with_closures(p) for _b, t in F.fns[cp].calls()
+                      for c in [callee(t) or callee_def(t) or ""]
+                      if c.rsplit("::", 1)[-1] in ("contains", "find", "rfind", "matches", "match_indices", "split", "starts_with", "ends_with", "to_str",
+                                                    "to_string_lossy", "to_string", "display") and
+                      ("str::" in c or c.startswith("str") or "Path::to_str" in c or "to_string" in c or "Path::display" in c)})
+    res.ob(rule, "module-is-local/by-component", "Module::is_local looks for the build/packages directory among the components of the path, not in its text",
+           not textual, where=f.loc(), how="textual operations on the path: %s" % textual)
     paths = sorted(x for x in strs if "build/packages" in x.replace("\\", "/"))
     res.ob(rule, "module-is-local", "hir::Module::is_local answers from Package::is_local of the module's own package and from the file's path (below "
            "build/packages = fetched dependency); it can only refuse more than the package flag", pkg and own and bool(paths), where=f.loc(),
